@@ -2,9 +2,13 @@
   Driver/FunctorCmd.lean
     functor <nob> (<name> <ty>)* <nar> (<box> <expr>)* <expr d>  -> ok <diagram> | err <class>
     functorty <nob> (<name> <ty>)* <ty>                          -> ok <ty> | err <class>
+    functorslice <functor> <expr d> <optint i> <optint j>
+        -> <result F(d[i:j])> | <i'> <j'> | <result F(d)[i':j']>      (err <class> if d or an image raises)
+           with i' = sum(len(F(b).boxes) for b in d.boxes[:I]), I, J = slice(i, j).indices(len(d))[:2]
+    functorsum <functor> <sexpr>                                 -> ok <dom> <cod> <n> <diagram>* | err <class>
 -/
-import Driver.Codec
-import Model.Functor
+import Driver.ReprCmd
+import Model.FunctorSum
 
 namespace DV.FunctorCmd
 open DV DV.Codec
@@ -20,8 +24,39 @@ def evalImages : List (Box × Expr) → Except Err (List (Box × Diagram))
       | .error x => .error x
       | .ok ds => .ok ((b, d) :: ds)
 
+def functorP : P (List (String × Ty) × List (Box × Expr)) := do
+  let ob ← many obEntry; let ar ← many arEntry; pure (ob, ar)
+
+def sliceAnswer (F : Functor) (d : Diagram) (i j : Option Int) : String :=
+  let i' := F.imgIdx d.boxes (pyLo d.boxes.length i)
+  let j' := F.imgIdx d.boxes (pyHi d.boxes.length j)
+  let lhs := match d.slice i j with
+    | .error e => .error e
+    | .ok s => F.apply s
+  let rhs := match F.apply d with
+    | .error e => .error e
+    | .ok fd => fd.slice (some (i' : Int)) (some (j' : Int))
+  s!"{pResult lhs} | {i'} {j'} | {pResult rhs}"
+
 def handle (cmd : String) (rest : List String) : Option String :=
   match cmd with
+  | "functorslice" =>
+    some <| match ((do let f ← functorP; let d ← expr; let i ← optInt; let j ← optInt;
+                       pure (f, d, i, j)) : P _).run rest with
+      | .error m => "bad " ++ m
+      | .ok (((ob, ar), d, i, j), _) =>
+        match evalImages ar, d.eval with
+        | .ok imgs, .ok d0 => sliceAnswer ⟨ob, imgs⟩ d0 i j
+        | .error e, _ => "err " ++ toString e
+        | _, .error e => "err " ++ toString e
+  | "functorsum" =>
+    some <| match ((do let f ← functorP; let s ← ReprCmd.sexpr; pure (f, s)) : P _).run rest with
+      | .error m => "bad " ++ m
+      | .ok (((ob, ar), s), _) =>
+        match evalImages ar, s.eval with
+        | .ok imgs, .ok s0 => ReprCmd.showE ((⟨ob, imgs⟩ : Functor).applySum s0) ReprCmd.pSum
+        | .error e, _ => "err " ++ toString e
+        | _, .error e => "err " ++ toString e
   | "functor" =>
     some <| match ((do let ob ← many obEntry; let ar ← many arEntry; let d ← expr; pure (ob, ar, d)) : P _).run rest with
       | .error m => "bad " ++ m
